@@ -593,7 +593,10 @@ class Result:
 
 
 def extract_replay_to_file(r, path):
+    """The exported cells / behaviours in a canonical order: TLC's workers print them in whatever order they
+    finish, and which cases a strided replay picks must not depend on that."""
+    lines = sorted(json.dumps(c, sort_keys=True) for c in r["replay"])
     with open(path, "w") as f:
-        for c in r["replay"]:
-            f.write(json.dumps(c) + "\n")
-    return len(r["replay"])
+        for l in lines:
+            f.write(l + "\n")
+    return len(lines)
